@@ -381,7 +381,7 @@ pub fn gen_static(_seed: u64, knobs: &ImKnobs) -> ImCfg {
                 }
                 2 => {
                     let (t, flag) = timed(tape::biased(2, 400) == 1);
-                    let n = 1 + tape::biased(3, 400) as usize;
+                    let n = 1 + tape::biased(4, 500) as usize;
                     let items = (0..n)
                         .map(|i| {
                             let mut p = gen_path(&comp, 0);
@@ -396,7 +396,19 @@ pub fn gen_static(_seed: u64, knobs: &ImKnobs) -> ImCfg {
                             (p, 0x8000_0000 | ((op_id as u32) << 8) | i as u32)
                         })
                         .collect();
-                    CtlOp::Write { timed: t, flag_timed: flag, items }
+                    let items: Vec<(PathSpec, u32)> = items;
+                    // A write in two chunks: the second one comes later (possibly after the timed
+                    // window) and carries its own TimedRequest flag
+                    let second = if items.len() >= 2 && tape::biased(2, 350) == 1 {
+                        Some(SecondChunk {
+                            at: 1 + tape::choose(items.len() as u32 - 1) as usize,
+                            delay_ms: [0, 50, 400, 900][tape::biased(4, 600) as usize],
+                            flag_timed: if tape::biased(2, 300) == 1 { !flag } else { flag },
+                        })
+                    } else {
+                        None
+                    };
+                    CtlOp::Write { timed: t, flag_timed: flag, items, second }
                 }
                 _ => {
                     let (t, flag) = timed(tape::biased(2, 400) == 1);
@@ -919,11 +931,14 @@ pub fn check_actions(run: &ImRun, root: &RootMeta, out: &mut Outcome) {
         let Some(step) = step_of(&run.cfg, *op) else {
             continue;
         };
-        let (timed, flag, items, command) = match &step.op {
-            CtlOp::Write { timed, flag_timed, items } => (timed, *flag_timed, items, false),
-            CtlOp::Invoke { timed, flag_timed, items } => (timed, *flag_timed, items, true),
+        let (timed, flag, items, command, second) = match &step.op {
+            CtlOp::Write { timed, flag_timed, items, second } => (timed, *flag_timed, items, false, second.clone()),
+            CtlOp::Invoke { timed, flag_timed, items } => (timed, *flag_timed, items, true, None),
             _ => continue,
         };
+        if second.is_some() {
+            out.count("writes_in_two_chunks_checked", 1);
+        }
         out.count(if command { "invokes_checked" } else { "writes_checked" }, 1);
         let req = requester(&run.cfg, step.pair);
         let span = op_span(run, *op);
@@ -1026,6 +1041,22 @@ pub fn check_actions(run: &ImRun, root: &RootMeta, out: &mut Outcome) {
             let exp_t = |w: &World<'_>, t: bool| expect_action(w, &req, p, command, t);
             // Possible expectations (the timed window may be uncertain; the world may have changed)
             let mut exps: Vec<ActExp> = Vec::new();
+            // An element of the second chunk of a write: judged by its effects only. It may act
+            // as an untimed element if no timed action preceded and its chunk is not flagged, as
+            // a timed one if a timed action preceded (the window is checked on the effect's time
+            // below), and not at all if its chunk claims a timed interaction that never was.
+            // (Whether a flag that differs between the chunks refuses the rest is left open.)
+            let in_second = matches!(&second, Some(sc) if idx >= sc.at);
+            let timed_state = if in_second {
+                let f2 = second.as_ref().map(|sc| sc.flag_timed).unwrap_or(flag);
+                match (timed, f2) {
+                    (None, false) => Some(false),
+                    (None, true) => None,
+                    (Some(_), _) => Some(true),
+                }
+            } else {
+                timed_state
+            };
             match timed_state {
                 Some(t) => {
                     exps.push(exp_t(&w0, t));
@@ -1099,7 +1130,7 @@ pub fn check_actions(run: &ImRun, root: &RootMeta, out: &mut Outcome) {
                     }
                 }
             }
-            if !complete {
+            if !complete || second.is_some() {
                 continue;
             }
             // Complete interaction: the answer must fit one of the expectations
